@@ -164,11 +164,16 @@ EvReduce(e) ==
      \cup Fail("ids_kept", Ids(r) \subseteq Ids(m) /\ r.id = m.id)
 
 (* ---- C10: errors() --------------------------------------------------------------- *)
+\* nodes without (the class name and) the object index of the projection: two equal definitions of one class built as separate objects are equal
+RECURSIVE StripCls(_)
+StripCls(n) == IF IsAtom(n) THEN [n EXCEPT !.o = 0] ELSE [n EXCEPT !.cls = "", !.o = 0, !.kids = [ i \in DOMAIN n.kids |-> StripCls(n.kids[i]) ]]
+RECURSIVE StripO(_)
+StripO(n) == IF IsAtom(n) THEN [n EXCEPT !.o = 0] ELSE [n EXCEPT !.o = 0, !.kids = [ i \in DOMAIN n.kids |-> StripO(n.kids[i]) ]]
 EvErrors(e) ==
   LET m == e.model IN
   Fail("accepted_welldef", (e.errs = <<>>) => WellDefined(m))
   \cup Fail("tree_accepted", TreeDistinct(m) => e.errs = <<>>)
-  \cup Fail("shared_accepted", SharesIdenticalOnly(m) => e.errs = <<>>)
+  \cup Fail("shared_accepted", SharesIdenticalOnly(StripO(m)) => e.errs = <<>>)
 
 (* ---- C04: constructors have their documented truth functions -------------------- *)
 EvBuild(e) ==
@@ -257,8 +262,6 @@ LeakT(n, D) ==
            n1 == [n EXCEPT !.lo = own[1], !.hi = own[2]]
        IN IF Const(own) THEN n1
           ELSE [n1 EXCEPT !.kids = [ i \in DOMAIN n.kids |-> LeakT(n.kids[i], D) ]]
-RECURSIVE StripCls(_)
-StripCls(n) == IF IsAtom(n) THEN [n EXCEPT !.o = 0] ELSE [n EXCEPT !.cls = "", !.o = 0, !.kids = [ i \in DOMAIN n.kids |-> StripCls(n.kids[i]) ]]
 
 (* ---- C09: a model and the object assume() / reduce() returned for it are independent ------------------------------ *)
 \* Calls that trigger the known overwrite (D2) change the object they are called on, and nothing else: poking the result leaves the
@@ -271,8 +274,6 @@ EvDerivePoke(e) ==
 (* ---- C09: two models built from the same sub-proposition objects ------------------------------------ *)
 \* the object index o of the projection numbers Python objects in order of first appearance; with deliberately shared objects it is
 \* not comparable with a freshly built model, everything else is
-RECURSIVE StripO(_)
-StripO(n) == IF IsAtom(n) THEN [n EXCEPT !.o = 0] ELSE [n EXCEPT !.o = 0, !.kids = [ i \in DOMAIN n.kids |-> StripO(n.kids[i]) ]]
 EvSharedBuild(e) ==
   Fail("store_unchanged", e.first_after_build = e.first_before.node /\ e.first_after = e.first_before)
   \cup Fail("result_as_fresh", /\ [e.first_before EXCEPT !.node = StripO(@)] = [e.first_fresh EXCEPT !.node = StripO(@)]
